@@ -42,7 +42,7 @@ func newNTSWorld(r *simcore.Run, nlisten int) *ntsWorld {
 	w.startListeners(nlisten, w.prov)
 	w.startKE(cert)
 	w.cl = &client.IPClient{Log: quietLog()}
-	Root.ConfigureIPClientNTS(w.cl, fmt.Sprintf("%s:%d", keHost, kePort), false, quietLog())
+	configureIPClientNTS(w.cl, fmt.Sprintf("%s:%d", keHost, kePort), quietLog())
 	w.cl.Auth.NTSKEFetcher.TLSConfig.RootCAs = pool
 	return w
 }
